@@ -184,8 +184,9 @@ def run_walk(rng, name, cfg, objs, focus, n_agents, n_steps, perturb, resets, se
             if v_live != v:
                 # the stored view is no longer what the agent was told: somebody's action reached into it; the next result can
                 # then not be "previous view plus the documented effect" (C03/C02), and a returned view was modified (C11)
-                wk.hits.append(("C03", "previous view changed behind the agent", f"the view agent {ag} was last given changed before its next action (another action reached into it)",
-                                {"kind": "walk", "scenario": name, "history": list(history), "agent": ag}))
+                for hp in ("C03", "C02"):
+                    wk.hits.append((hp, "previous view changed behind the agent", f"the view agent {ag} was last given changed before its next action (another action reached into it): the next result cannot be the previous view (plus the documented effect)",
+                                    {"kind": "walk", "scenario": name, "history": list(history), "agent": ag}))
                 v = told[ag] = copy.deepcopy(v_live)
             perturbed = False
             if perturb and forced_fn is None and rng.random() < perturb:
